@@ -78,6 +78,15 @@ def r1_r2(ck, F):
         else:
             if len(wr) > 1 or any(c[1].get("method") != "write_all" for c in wr):
                 problems.append("io::Write methods on the error path: %s" % [c[1].get("method") for c in wr])
+        # a writer is requested only for a record that is then written, and only after formatting is over: the writer a
+        # factory hands out may hold a lock or a file for its lifetime, and formatting runs user Debug/Display code
+        for c in mk:
+            after = [x for x in p.calls if p.calls.index(x) > p.calls.index(c)]
+            if any(x[1].get("trait") == FE and x[1].get("method") == "format_event" for x in after):
+                problems.append("the writer is requested before format_event runs: it is held while user formatting code runs (a panic there "
+                                "drops it unused, poisoning a Mutex writer), and a record that fails to format got a writer for nothing")
+            if not any(x[1].get("trait") == IOW and x[1].get("method") == "write_all" for x in after):
+                problems.append("a writer is requested on a path that writes nothing to it")
         if problems:
             ck.bad("C13.R1", "on_event: " + problems[0].split(" (")[0], where(b.raw["sp"]), "; ".join(problems) + " [%s]" % key, fn=b.path)
         else:
